@@ -448,6 +448,11 @@ class OpsDomain(SymDomain):
         if k == "Call" and "this" in e and e["this"] is not None:
             th = it.eval(e["this"], fr)
             th = th.get() if isinstance(th, Cell) else th
+            if isinstance(th, AbstractInput) and strip_targs(e.get("callee", "")).rsplit("::", 1)[-1] in ("operator bool", "get"):
+                # the smart pointer that holds an input function object: set, in every configuration the analyses consider
+                return True if "operator bool" in e.get("callee", "") else th
+            if isinstance(th, ObjVec) and strip_targs(e.get("callee", "")).rsplit("::", 1)[-1] == "empty":
+                return not th.items
             if isinstance(th, ObjVec):
                 m = strip_targs(e.get("callee", "")).rsplit("::", 1)[-1]
                 if m == "resize":
